@@ -12,6 +12,7 @@ import (
 	"sort"
 	"strconv"
 	"strings"
+	"time"
 )
 
 // ---------- PRNG (SplitMix64): every random choice derives from VERIF_SEED ----------
@@ -251,6 +252,20 @@ func (w *Writer) Violation(label, what string, detail interface{}) {
 		dv = append(dv, map[string]interface{}{"label": label, "what": what, "detail": detail})
 	}
 	w.Notes["direct_violations"] = dv
+}
+
+// WithTimeout runs f in a goroutine and reports whether it finished within d. A call that does not
+// return (an iterator loop that never terminates, a deadlock) cannot be killed: the caller should record
+// a Violation, Close the writer and exit the process.
+func WithTimeout(d time.Duration, f func()) bool {
+	done := make(chan struct{})
+	go func() { defer close(done); f() }()
+	select {
+	case <-done:
+		return true
+	case <-time.After(d):
+		return false
+	}
 }
 
 // Recover runs f and reports whether it panicked (and with what).
